@@ -8,7 +8,7 @@ def errno_fn(name, code):
     return Fn(UTIL, None, name, ensures=['r.os_code() == Some(%d as i32)' % code], props=['C18'])
 
 
-def unit():
+def unit(root='/repo'):
     return Unit('seal', preludes=['base.rs'], items=[
         Copy('src/abi/fuse_abi_linux.rs', r'pub enum Opcode\b', prefix='#[repr(u32)]\n#[derive(Clone, Copy)]'),
         errno_fn('einval', 22), errno_fn('eperm', 1), errno_fn('enosys', 38),
